@@ -454,8 +454,20 @@ def _overlap(a, b) -> bool:
     return min(a[2], b[2]) > max(a[0], b[0]) and min(a[3], b[3]) > max(a[1], b[1])
 
 
+def _rand_twins(rng) -> list:
+    """two rectangles of exactly equal area, each a valid trunk of the other (side by side or stacked), random order"""
+    x1, y1, w, h = rng.randint(2, 30), rng.randint(2, 30), rng.randint(1, 10), rng.randint(1, 10)
+    a = [x1, y1, x1 + w, y1 + h]
+    b = [x1 + w, y1, x1 + 2 * w, y1 + h] if rng.random() < 0.5 else [x1, y1 + h, x1 + w, y1 + 2 * h]
+    rs = [a, b]
+    rng.shuffle(rs)
+    return rs
+
+
 def _rand_stog(rng) -> list:
     """a trunk with 0..3 branches on distinct sides (never overlapping), in random order"""
+    if rng.random() < 0.15:
+        return _rand_twins(rng)
     x1, y1 = rng.randint(14, 30), rng.randint(14, 30)
     w, h = rng.randint(2, 12), rng.randint(2, 12)
     t = [x1, y1, x1 + w, y1 + h]
@@ -530,6 +542,9 @@ def random_doc(rng: random.Random) -> dict:
                 md["flags"]["fixed"] = 1
             if kind == "fixedTerminal" or rng.random() < 0.7:
                 md["center"] = [rng.randint(0, 60), 1, rng.randint(0, 60), 1]
+            if rng.random() < 0.3:          # a terminal with rectangles (a pad with a shape): centre and area come from them
+                rs = _rand_disjoint(rng, rng.randint(1, 2))
+                md["rects"] = {"form": "flat" if len(rs) == 1 and rng.random() < 0.5 else "list", "rs": [r + [GROUND] for r in rs]}
         mods.append(md)
     nets = []
     names = [m["name"] for m in mods]
@@ -717,7 +732,7 @@ def run(ctx: Ctx) -> int:
     ctx.assumptions += [
         "float dimension sampled by 8 embeddings of the integer lattice (steps 1, 1.0, 1/2, 1/10, 1/3, 1e3, 1e-3, 0.1+37.3), not enumerated",
         "identifier validity is modelled by a fixed list of invalid spellings; all other names used match [A-Za-z_][A-Za-z0-9_]*",
-        "rectangle centres are non-negative (the reader refuses negative numbers); terminals carry no rectangles",
+        "rectangle centres are non-negative (the reader refuses negative numbers)",
         "rectangles of a module and the members of a net are compared as multisets, nets as a multiset of nets (the "
         "statement orders only the modules); list order is model conformance",
         "documents with several modules also make the round trip through files (write_yaml(path), Netlist(path), write_yaml(path2), "
